@@ -548,6 +548,9 @@ func (fv *FV) execRange(st *State, x *ast.RangeStmt, label string, ctl *Ctl, k K
 					cur = fv.readPath(it, mpath, true)
 				}
 				it.vars[vo] = fv.bind(it, mpRaw(cur, kk), vo.Name())
+				for _, f := range fv.wfAll(it.vars[vo], 2) {
+					it.assume(T(f, SBool))
+				}
 				delete(it.alias, vo)
 			}
 		}
